@@ -162,6 +162,9 @@ func c19Correspondence(c *hx.Ctx) {
 			}
 		}
 	}
+	if c19Extra != nil {
+		c19Extra(c)
+	}
 }
 
 func c19CbIdxCase(c *hx.Ctx, x0, width, pw, cbw int) {
@@ -275,6 +278,29 @@ func c04Correspondence(c *hx.Ctx) {
 		}
 	}
 	c.Count("corr:passlayout")
+	// code-block rectangles of a sub-band (0 levels: the band is the tile): Encoder.partitionIntoCodeBlocks
+	for i := 0; i < 40; i++ {
+		bw, bh := r.Range(1, 70), r.Range(1, 40)
+		cbw, cbh := r.Pick([]int{4, 8, 16, 32, 64}), r.Pick([]int{4, 8, 16, 32})
+		if i < 4 {
+			bw, bh, cbw, cbh = []int{1, 64, 65, 37}[i], []int{1, 64, 5, 5}[i], []int{4, 64, 64, 16}[i], []int{4, 64, 4, 4}[i]
+		}
+		pp := jpeg2000.DefaultEncodeParams(bw, bh, 1, 8, false)
+		pp.NumLevels, pp.CodeBlockWidth, pp.CodeBlockHeight = 0, cbw, cbh
+		var blocks []*t2.PrecinctCodeBlock
+		if pn, _ := hx.Guard(func() { blocks = jpeg2000.VerifTileBlocks(pp, [][]int32{make([]int32, bw*bh)}, bw, bh) }); pn {
+			c.Case(fmt.Sprintf("j2k-cbrect %d %d %d %d 0 0", bw, bh, cbw, cbh), "panic")
+			continue
+		}
+		nx, ny := (bw+cbw-1)/cbw, (bh+cbh-1)/cbh
+		for k, b := range blocks {
+			cbx, cby := k%nx, k/nx // partitionIntoCodeBlocks enumerates cby-major
+			c.Case(fmt.Sprintf("j2k-cbrect %d %d %d %d %d %d", bw, bh, cbw, cbh, cbx, cby),
+				fmt.Sprintf("ok %d %d %d %d %d %d", nx, len(blocks)/max(nx, 1), b.X0, b.Y0, b.X1, b.Y1))
+		}
+		_ = ny
+		c.Count("corr:cbrect")
+	}
 	// pass-count code, comma code, on bits; and decoded back through the real bit reader
 	for n := 1; n <= 170; n++ {
 		var bits []int
@@ -362,6 +388,140 @@ func c04Correspondence(c *hx.Ctx) {
 		}
 	}
 	c.Count("corr:bio")
+	c04TagTreeCorrespondence(c)
+	if c04Extra != nil { // round-2 hooks (c04corr2.go, build tag c04hooks2)
+		c04Extra(c)
+	}
+}
+
+var c04Extra func(*hx.Ctx)
+var c19Extra func(*hx.Ctx)
+
+type c04BitRec struct{ bits []int }
+
+func (r *c04BitRec) WriteBit(bit int) error {
+	if bit != 0 {
+		bit = 1
+	}
+	r.bits = append(r.bits, bit)
+	return nil
+}
+
+type c04BitSrc struct {
+	bits []int
+	pos  int
+}
+
+func (r *c04BitSrc) ReadBit() (int, error) {
+	if r.pos >= len(r.bits) {
+		return 0, fmt.Errorf("end")
+	}
+	b := r.bits[r.pos]
+	r.pos++
+	return b, nil
+}
+
+// c04TagTreeCorrespondence: real t2.TagTree (public API: NewTagTree, SetValue, Encode, Decode) against the
+// model of Model/J2kTagTree.lean on random trees: inclusion-style use (values = first layer, set lazily layer by
+// layer, thresholds layer+1) and zero-bit-plane-style use (all leaves set first, one large threshold).
+func c04TagTreeCorrespondence(c *hx.Ctx) {
+	r := c.R
+	for i := 0; i < 120; i++ {
+		w, h := r.Range(1, 9), r.Range(1, 7)
+		if i < 6 {
+			w, h = []int{1, 1, 2, 3, 8, 5}[i], []int{1, 2, 1, 2, 8, 1}[i]
+		}
+		tt := t2.NewTagTree(w, h)
+		rec := &c04BitRec{}
+		var ops, qs []string
+		first := make([]int, w*h)
+		layers := r.Range(1, 5)
+		for j := range first {
+			first[j] = r.Intn(layers + 2) // >= layers: never included
+		}
+		panicked := false
+		if i%3 == 2 { // zero-bit-plane style
+			for y := 0; y < h; y++ {
+				for x := 0; x < w; x++ {
+					v := r.Intn(12)
+					ops = append(ops, fmt.Sprintf("0:%d:%d:%d", x, y, v))
+					p, _ := hx.Guard(func() { tt.SetValue(x, y, v) })
+					panicked = panicked || p
+				}
+			}
+			for k := 0; k < w*h; k++ {
+				x, y := r.Intn(w), r.Intn(h)
+				ops = append(ops, fmt.Sprintf("1:%d:%d:%d", x, y, 999))
+				qs = append(qs, fmt.Sprintf("%d:%d:%d", x, y, 999))
+				p, _ := hx.Guard(func() { _ = tt.Encode(rec, x, y, 999) })
+				panicked = panicked || p
+			}
+		} else { // inclusion style
+			for l := 0; l < layers; l++ {
+				for y := 0; y < h; y++ {
+					for x := 0; x < w; x++ {
+						if first[y*w+x] == l {
+							ops = append(ops, fmt.Sprintf("0:%d:%d:%d", x, y, l))
+							p, _ := hx.Guard(func() { tt.SetValue(x, y, l) })
+							panicked = panicked || p
+						}
+					}
+				}
+				for y := 0; y < h; y++ {
+					for x := 0; x < w; x++ {
+						if first[y*w+x] >= l { // not yet included before this layer
+							ops = append(ops, fmt.Sprintf("1:%d:%d:%d", x, y, l+1))
+							qs = append(qs, fmt.Sprintf("%d:%d:%d", x, y, l+1))
+							p, _ := hx.Guard(func() { _ = tt.Encode(rec, x, y, l+1) })
+							panicked = panicked || p
+						}
+					}
+				}
+			}
+		}
+		realEnc := "ok " + c04Bits(rec.bits)
+		if panicked {
+			realEnc = "panic"
+		}
+		c.Case(fmt.Sprintf("j2k-tt-enc %d %d %s", w, h, strings.Join(ops, ";")), realEnc)
+		// decode the same queries from the encoder's bits followed by two extra bits
+		bits := append(append([]int{}, rec.bits...), 1, 0)
+		c.Case(fmt.Sprintf("j2k-tt-dec %d %d %s %s", w, h, c04Bits(bits), strings.Join(qs, ";")), c04Guarded(func() string {
+			dt := t2.NewTagTree(w, h)
+			src := &c04BitSrc{bits: bits}
+			var vals []int
+			for _, q := range qs {
+				var x, y, t int
+				fmt.Sscanf(strings.ReplaceAll(q, ":", " "), "%d %d %d", &x, &y, &t)
+				v, err := dt.Decode(src, x, y, t)
+				if err != nil {
+					return "err"
+				}
+				vals = append(vals, v)
+			}
+			return fmt.Sprintf("ok %s %d", c04Ints(vals), len(bits)-src.pos)
+		}))
+		// truncated bit string: error outcome on both sides
+		if len(rec.bits) > 2 {
+			tb := rec.bits[:len(rec.bits)/2]
+			c.Case(fmt.Sprintf("j2k-tt-dec %d %d %s %s", w, h, c04Bits(tb), strings.Join(qs, ";")), c04Guarded(func() string {
+				dt := t2.NewTagTree(w, h)
+				src := &c04BitSrc{bits: tb}
+				var vals []int
+				for _, q := range qs {
+					var x, y, t int
+					fmt.Sscanf(strings.ReplaceAll(q, ":", " "), "%d %d %d", &x, &y, &t)
+					v, err := dt.Decode(src, x, y, t)
+					if err != nil {
+						return "err"
+					}
+					vals = append(vals, v)
+				}
+				return fmt.Sprintf("ok %s %d", c04Ints(vals), len(tb)-src.pos)
+			}))
+		}
+		c.Count("corr:tagtree")
+	}
 }
 
 // ---------------------------------------------------------------------------------------------- C05
@@ -426,6 +586,101 @@ func c05Correspondence(c *hx.Ctx) {
 			return c05ParamLine(k, ep)
 		}))
 		c.Count("corr:lparams")
+	}
+	// generic codec.Parameters objects: keys present/absent, out-of-range values, wrong-typed values (ignored)
+	for i := 0; i < 300; i++ {
+		bs := r.Range(2, 16)
+		ba := 8
+		if bs > 8 {
+			ba = 16
+		}
+		g := dcodec.NewBaseParameters()
+		tok := make([]string, 10)
+		optInt := func(idx int, key string, lo, hi int) (int, bool) {
+			switch r.Intn(4) {
+			case 0:
+				tok[idx] = "x"
+				return 0, false
+			case 1: // wrong type: ignored by the type assertion
+				g.SetParameter(key, "a string")
+				tok[idx] = "x"
+				return 0, false
+			}
+			v := r.Range(lo, hi)
+			g.SetParameter(key, v)
+			tok[idx] = fmt.Sprint(v)
+			return v, true
+		}
+		optBool := func(idx int, key string) {
+			if r.Intn(3) == 0 {
+				tok[idx] = "x"
+				return
+			}
+			v := r.Bool()
+			g.SetParameter(key, v)
+			tok[idx] = map[bool]string{true: "1", false: "0"}[v]
+		}
+		optInt(0, "numLevels", -2, 9)
+		optBool(1, "allowMCT")
+		rate, hasRate := optInt(2, "rate", -3, 1300)
+		switch r.Intn(4) {
+		case 0:
+			tok[3] = "x"
+		case 1:
+			g.SetParameter("rateLevels", []int{})
+			tok[3] = "-"
+		default:
+			lv := []int{}
+			v := r.Range(100, 2000)
+			for j := 0; j < r.Range(1, 6) && v > 1; j++ {
+				lv = append(lv, v)
+				v = v / r.Range(2, 4)
+			}
+			g.SetParameter("rateLevels", lv)
+			tok[3] = c04Ints(lv)
+		}
+		if r.Intn(5) == 0 { // uint8-typed progression
+			v := r.Range(0, 9)
+			g.SetParameter("progressionOrder", uint8(v))
+			tok[4] = fmt.Sprint(v)
+		} else {
+			optInt(4, "progressionOrder", -2, 300)
+		}
+		optInt(5, "numLayers", -1, 10)
+		trd := 2
+		switch r.Intn(4) {
+		case 0:
+			tok[6] = "x"
+		case 1:
+			v := r.Range(-3, 50)
+			g.SetParameter("targetRatio", v) // int
+			tok[6] = fmt.Sprint(v * 2)
+		case 2:
+			v := float32(r.Range(0, 40)) / 2
+			g.SetParameter("targetRatio", v)
+			tok[6] = fmt.Sprint(int(v * 2))
+		default:
+			v := float64(r.Range(-2, 200)) / 2
+			g.SetParameter("targetRatio", v)
+			tok[6] = fmt.Sprint(int(v * 2))
+		}
+		optBool(7, "usePCRDOpt")
+		optBool(8, "appendLosslessLayer")
+		effRate := 20
+		if hasRate && rate > 0 {
+			effRate = rate
+		}
+		k := c05Case{BS: bs, BA: ba, Par: c05Par{Rate: effRate}}
+		fi := &imagetypes.FrameInfo{Width: 8, Height: 8, BitsAllocated: uint16(ba), BitsStored: uint16(bs), SamplesPerPixel: 1}
+		c.Case(fmt.Sprintf("j2k-gparams %s %s %s %s %s %s %s %d %s %s %d %d", tok[0], tok[1], tok[2], tok[3], tok[4], tok[5], tok[6], trd, tok[7], tok[8], bs, ba),
+			c04Guarded(func() string {
+				ep, err := j2klossless.VerifEncodeParams(fi, g)
+				if err != nil {
+					return "err"
+				}
+				return c05ParamLine(k, ep)
+			}))
+		c.Count("corr:gparams")
 	}
 	// default object and nil parameters
 	for _, bs := range []int{8, 12, 16} {
